@@ -25,6 +25,7 @@ D21_KEY = "idc_star:reflexive-subscript-node-lookup"
 D22_KEY = "idc_star:zero-joint-estimand-normalised"
 D23_KEY = "idc_star:minus-subscript-for-a-variable-the-event-sets-to-plus"
 D24_KEY = "idc_star:remaining-condition-downstream-of-an-exchanged-condition-keeps-its-world"
+D23_CALLSITE = "__d23_callsite__"  # trace-only: rule 2 exchanged a condition whose event value is 1 (written as -Z)
 
 
 def polarity_lost(ev, expr, some_world=False):
@@ -102,6 +103,12 @@ def _install_rule2_wrapper():
             c07.TRACE[D24_KEY] = True
             if c07._state["corrected"]:
                 return False
+        if res and condition.get_base().name in _cstate.get("plus_conditions", ()):
+            # the exchange will write the subscript -Z although the event says Z = 1 (known finding D23); the output
+            # may then be any wrong thing, even Zero().  In corrected mode the exchange is refused.
+            c07.TRACE[D23_CALLSITE] = True
+            if c07._state["corrected"]:
+                return False
         return res
 
     mod.cf_rule_2_of_do_calculus_applies = wrapper
@@ -116,6 +123,7 @@ def run_idc_star(g: GSpec, gamma, delta, corrected=False):
     _install_rule2_wrapper()
     c07.TRACE.clear()
     c07._state["corrected"] = corrected
+    _cstate["plus_conditions"] = {v for v, _, val in delta if val == 1}
     try:
         return "ok", idc_star(g.to_nx(), to_y0_event(gamma), to_y0_event(delta))
     except Unidentifiable:
@@ -178,7 +186,8 @@ def check_output(g, gamma, delta, expr, model, den, timeout_ms):
 
 
 def explain(g, gamma, delta, trace, model, den, timeout_ms, expr):
-    flags = sorted(k for k in trace if trace[k])
+    flags = sorted(k for k in trace if trace[k] and k != D23_CALLSITE)
+    callsite23 = bool(trace.get(D23_CALLSITE))
     ev = gamma + delta
     if expr is not None and c07.bound_literal_clash(ev, expr):
         flags = sorted(set(flags) | {c07.D14_KEY})
@@ -211,6 +220,17 @@ def explain(g, gamma, delta, trace, model, den, timeout_ms, expr):
         # the same base variable occurs (in different worlds) among the outcomes and among the conditions: when the
         # counterfactual graph merges the two nodes, get_new_outcomes_and_conditions keeps only one role
         flags = sorted(set(flags) | {D20_KEY})
+    if callsite23 and not flags:
+        # nothing in the output shows the lost polarity (e.g. Zero()): attributed to D23 only if the real algorithm,
+        # re-run with that exchange refused, is right or refuses
+        try:
+            status, e2 = run_idc_star(g, gamma, delta, corrected=True)
+        except Exception:  # noqa: BLE001
+            return []
+        if status != "ok":
+            return [D23_KEY]
+        chk = check_output(g, gamma, delta, e2, model, den, timeout_ms)
+        return [D23_KEY] if chk["violation"] is None and not chk["unknown"] else []
     if not flags:
         return []
     if (c07.CONDITION_ONLY | {D20_KEY, D23_KEY}) & set(flags):
